@@ -199,10 +199,8 @@ def main(rep: Report, replay: dict | None) -> None:
                 idx, e, d, desc = r
                 rep.violation(f"replay:{sc['instance']}:{d.clause}:{d.what}", f"{d.detail}\nreal state: {desc}", sc)
         elif sc.get("kind") == "real":
-            validate_real(rep, [dict(sc["trace"], _diag={"method": sc["job"]["method"], "raw_bad": [], "evidence": "(recorded)"},
-                                     _job=sc["job"])], selfcheck=False)
-            if rep.violations:
-                return
+            # re-run the recorded configuration against the code under test (a real-time sample; the
+            # recorded trace is kept in the file for reference)
             traces = run_real(rep, [dict(sc["job"], src=os.path.join(rep.extra.get("repo", "/repo"), "src"))])
             validate_real(rep, traces, selfcheck=False)
         else:
